@@ -752,12 +752,17 @@ class ExcelCompiler:
             if excel_data.address != address:
                 # if the actual data returned is not the same as the address
                 # given, then use a reference
-                self.cell_map[str(address)] = self.Cell(
+                ref_cell = self.cell_map[str(address)] = self.Cell(
                     address, formula=REF_FORMAT.format(excel_data.address),
                     excel=self.excel)
+            else:
+                ref_cell = None
 
             self.range_todos.append(str(excel_data.address))
             new_nodes = build_range(excel_data)
+            if ref_cell is not None:
+                # the reference depends on the range it refers to
+                new_nodes.append(ref_cell)
         else:
             new_nodes = build_cell(excel_data)
 
